@@ -361,3 +361,79 @@ func C08_SplitPos() {
 	verif.Assert(strings.HasPrefix(errText(xerr), "runtime error: line "+c08Loc(src, len(src)-1)+": "), "runtime error position after a split character")
 	verif.Reach("checked")
 }
+
+// C08_WidePos: CONCRETE INSTANCES - a runtime error after n declarations, so
+// that the instructions before the failing one carry operands of two varint
+// bytes (constant index and slot above 240): the position is still that of
+// the failing token, also after dump and load.
+func C08_WidePos() {
+	n := []int{200, 239, 240, 241, 242, 243, 260, 300}[verif.Choice("n", 8)]
+	src := ""
+	for i := 0; i < n; i++ {
+		src += "var v" + itoa(i) + " = " + itoa(5000+i) + "\n"
+	}
+	last := "v" + itoa(n-1)
+	src += []string{
+		"print " + last + " + " + last + " / 0\n",
+		"print \"x\" - " + last + "\nprint 1\n",
+		"def t {\n f = " + last + "\n g = nosuch\n}\n",
+		"print " + last + "\n\n  print 7 + " + last + " * (3 / (" + last + " - " + last + "))\n",
+	}[verif.Choice("tail", 4)]
+	r := runBoth(src, nil)
+	verif.Assert(r.ParseErr == nil && r.RefAccepts(), "accepted")
+	if r.ParseErr != nil || !r.RefAccepts() {
+		return
+	}
+	verif.Assert(r.Ref.Err != nil && r.Real.Err != nil, "both fail at run time")
+	if r.Ref.Err == nil || r.Real.Err == nil {
+		return
+	}
+	msg := r.Real.Err.Error()
+	verif.Observe("msg", msg)
+	verif.Assert(strings.HasPrefix(msg, "runtime error: line "+c08Loc(src, r.Ref.ErrPC)+": "), "runtime error position")
+	verif.Assert(len(bcl.VerifPositions(r.Prog)) == len(bcl.VerifCode(r.Prog)), "one position per code byte")
+	var d bytes.Buffer
+	if r.Prog.Dump(&d) != nil {
+		panic("dump failed")
+	}
+	out2, log2 := &symio.Writer{}, &symio.Writer{}
+	p2, err := bcl.LoadProg(bytes.NewReader(d.Bytes()), "src", bcl.OptOutput(out2), bcl.OptLogger(log2))
+	verif.Assert(err == nil, "dump loads")
+	if err == nil {
+		_, _, err2 := bcl.Execute(p2)
+		verif.Assert(errText(err2) == msg, "same runtime error text after dump and load")
+	}
+	verif.Reach("checked")
+}
+
+// C08_TwoDiags: two faulty statements on different lines read through
+// ParseFile, the first one followed on its own line by more tokens than the
+// lexer runs ahead, with a read boundary at any place of that line or after
+// it: both diagnostics are those of Parse on the whole text (line table
+// lookups between which the table grows).
+func C08_TwoDiags() {
+	first := []string{"print )", "var = 1", "eval 1 +"}[verif.Choice("first", 3)]
+	ntail := []int{0, 8, 14, 20, 40}[verif.Choice("tail", 5)]
+	line1 := first
+	for i := 0; i < ntail; i++ {
+		line1 += " " + itoa(i%7)
+	}
+	src := "var a = 1\n" + line1 + "\nprint a\n  print (\nvar b = 2\nprint b b\n"
+	lo := len("var a = 1\n")
+	cuts := []int{lo + 3, lo + len(first) + 2, lo + len(line1)/2, lo + len(line1) - 1, lo + len(line1), lo + len(line1) + 1, lo + len(line1) + 9}
+	cut := cuts[verif.Choice("cut", len(cuts))]
+	w := c07Whole([]byte(src))
+	var script []symio.Step
+	if verif.Choice("more", 2) == 0 {
+		script = []symio.Step{{N: cut}}
+	} else {
+		script = []symio.Step{{N: cut}, {N: 5}, {N: 0}, {N: 7}}
+	}
+	f := c07File(&symio.File{Data: []byte(src), Script: script, FileName: "file"})
+	verif.Assert(w.Err != nil && f.Err != nil, "both rejected")
+	verif.Observe("log", f.Log)
+	verif.Assert(f.Log == w.Log, "same diagnostics (positions included) from ParseFile and Parse")
+	d := c17DiagLines(w.Log)
+	verif.Assert(len(d) >= 3 && strings.HasPrefix(d[len(d)-1], "line 6:"), "at least one diagnostic per faulty statement, the last one on the last line")
+	verif.Reach("checked")
+}
